@@ -97,6 +97,37 @@ def mon_stress(case, out):
     return bad
 
 
+def gen_waitempty(rng, tier):
+    n = 1 if tier == "quick" else 4
+    return [["waitempty evsys=%s wait=%d gap=%d" % (ev, rng.choice([400, 600, 800]), rng.choice([50, 150, 250]))]
+            for ev in BACKENDS for _ in range(n)]
+
+
+def mon_waitempty(case, out):
+    """a waiter that was notified while the queue was momentarily empty (a callback cancelled everything and then started a
+    new request under the same lock) may report success only with nothing outstanding"""
+    bad = []
+    for line in out:
+        m = re.match(r"waitempty (\w+) status=(-?\d+) active=(-?\d+) elapsed=(-?\d+) wait=(\d+)", line)
+        if not m:
+            if "unsupported" not in line:
+                bad.append(("thread-harness-output", line[:100]))
+            continue
+        ev, st, active, el, wait = m.group(1), int(m.group(2)), int(m.group(3)), int(m.group(4)), int(m.group(5))
+        if st == 0 and active != 0:
+            bad.append(("wait-empty-unsound", "ares_queue_wait_empty(%d ms) returned ARES_SUCCESS after %d ms with %d request(s) "
+                        "outstanding (%s): woken by the notification of a momentarily empty queue and not re-checked" % (wait, el, active, ev)))
+        elif st not in (0, 12):
+            bad.append(("unexpected-status", "waitempty/%s status %d" % (ev, st)))
+    return bad
+
+
+def waitempty_stream():
+    return Stream("wait-empty-renotify", "h_thread", None, gen_waitempty, monitor=mon_waitempty,
+                  nontrivial=lambda c, o: any("status=" in l for l in o), timeout=600,
+                  opkind=lambda l: " ".join(l.split()[:2]))
+
+
 def timing_stream():
     return Stream("event-thread-timing", "h_thread", None, gen_timing, monitor=mon_timing,
                   nontrivial=lambda c, o: any("completed=1" in l for l in o), timeout=1200,
